@@ -310,7 +310,7 @@ func main() {
 	if err := os.MkdirAll(outDir, 0o755); err != nil {
 		panic(err)
 	}
-	gens := []func() *leanFile{genRlp, genSecp, genTx, genEth, genAbi, genAbiEntry, genFfi, genKeystore, genFsWallet, genProxy, genRpc, genAbiCodec}
+	gens := []func() *leanFile{genRlp, genSecp, genTx, genEth, genAbi, genAbiEntry, genFfi, genKeystore, genFsWallet, genProxy, genRpc, genAbiCodec, genEip712}
 	for _, g := range gens {
 		l := g()
 		if err := l.write(outDir); err != nil {
